@@ -16,7 +16,7 @@ for d in sorted(glob.glob('/tmp/wt_C*/seeded/*')) + sorted(glob.glob('/tmp/wt2_C
         sorted(glob.glob('/tmp/wt3_C*/seeded/*')) + sorted(glob.glob('/tmp/wt4_C*/seeded/*')) + \
         sorted(glob.glob('/tmp/wt5_C*/seeded/*')) + sorted(glob.glob('/tmp/wt6_C*/seeded/*')) + \
         sorted(glob.glob('/tmp/wt7_C*/seeded/*')) + sorted(glob.glob('/tmp/wt8_C*/seeded/*')) + \
-        sorted(glob.glob('/tmp/wt9_C*/seeded/*')) + sorted(glob.glob('/tmp/wt10_C*/seeded/*')) + sorted(glob.glob('/tmp/wt11_C*/seeded/*')) + sorted(glob.glob('/tmp/wt12_C*/seeded/*')) + sorted(glob.glob('/tmp/wt13_C*/seeded/*')):
+        sorted(glob.glob('/tmp/wt9_C*/seeded/*')) + sorted(glob.glob('/tmp/wt10_C*/seeded/*')) + sorted(glob.glob('/tmp/wt11_C*/seeded/*')) + sorted(glob.glob('/tmp/wt12_C*/seeded/*')) + sorted(glob.glob('/tmp/wt13_C*/seeded/*')) + sorted(glob.glob('/tmp/wt14_C*/seeded/*')):
     mp = os.path.join(d, 'meta.json')
     if not os.path.exists(mp):
         continue
@@ -25,8 +25,8 @@ for d in sorted(glob.glob('/tmp/wt_C*/seeded/*')) + sorted(glob.glob('/tmp/wt2_C
     if not c:
         continue
     top = d.split('/')[2]
-    pid = top.replace('wt13_', '').replace('wt12_', '').replace('wt11_', '').replace('wt10_', '').replace('wt9_', '').replace('wt8_', '').replace('wt7_', '').replace('wt6_', '').replace('wt5_', '').replace('wt4_', '').replace('wt3_', '').replace('wt2_', '').replace('wt_', '')
-    n = ('r13-' if top.startswith('wt13_') else 'r12-' if top.startswith('wt12_') else 'r11-' if top.startswith('wt11_') else 'r2-' if top.startswith('wt2_') else 'r3-' if top.startswith('wt3_') else 'r4-' if top.startswith('wt4_') else 'r5-' if top.startswith('wt5_') else 'r6-' if top.startswith('wt6_') else 'r7-' if top.startswith('wt7_') else 'r8-' if top.startswith('wt8_') else 'r9-' if top.startswith('wt9_') else 'r10-' if top.startswith('wt10_') else '') + os.path.basename(d)
+    pid = top.replace('wt14_', '').replace('wt13_', '').replace('wt12_', '').replace('wt11_', '').replace('wt10_', '').replace('wt9_', '').replace('wt8_', '').replace('wt7_', '').replace('wt6_', '').replace('wt5_', '').replace('wt4_', '').replace('wt3_', '').replace('wt2_', '').replace('wt_', '')
+    n = ('r14-' if top.startswith('wt14_') else 'r13-' if top.startswith('wt13_') else 'r12-' if top.startswith('wt12_') else 'r11-' if top.startswith('wt11_') else 'r2-' if top.startswith('wt2_') else 'r3-' if top.startswith('wt3_') else 'r4-' if top.startswith('wt4_') else 'r5-' if top.startswith('wt5_') else 'r6-' if top.startswith('wt6_') else 'r7-' if top.startswith('wt7_') else 'r8-' if top.startswith('wt8_') else 'r9-' if top.startswith('wt9_') else 'r10-' if top.startswith('wt10_') else '') + os.path.basename(d)
     if (pid, n) in NOT_KEPT:
         continue
     ok = c.get('demo_passes_without') and c.get('patch_applies') and c.get('demo_fails_with') and c.get('tests_pass_with')
